@@ -36,6 +36,12 @@ def splitSep (s sep : Bytes) : P (List Bytes) :=
   | _ => .panic "UNSUPPORTED: strings.Split with a separator that is not one byte"
 
 
+/-- `strings.IndexByte` -/
+def indexByte (s : Bytes) (c : UInt8) : Int :=
+  match s.idxOf? c with
+  | some i => (i : Int)
+  | none => -1
+
 /-- signature verification (secp256k1) — a parameter, never an axiom: public key, message, signature -/
 structure SigScheme where
   verify : Bytes → Bytes → Bytes → Bool
